@@ -367,6 +367,8 @@ class LocalScheduleInterpreter(OneShotTask):
         sched_obj._property_monitors['presentValue'].append(self.present_value_changed)
         sched_obj._property_monitors['weeklySchedule'].append(self.schedule_changed)
         sched_obj._property_monitors['exceptionSchedule'].append(self.schedule_changed)
+        sched_obj._property_monitors['effectivePeriod'].append(self.schedule_changed)
+        sched_obj._property_monitors['scheduleDefault'].append(self.schedule_changed)
 
         # call to interpret the schedule
         deferred(self.process_task)
@@ -416,9 +418,10 @@ class LocalScheduleInterpreter(OneShotTask):
                 if _debug: LocalScheduleInterpreter._debug("    - error: %r", err)
 
     def schedule_changed(self, old_value, new_value):
-        """This function is called when the weeklySchedule or the exceptionSchedule
-        property of the local schedule object has changed, both internally by
-        this interpreter, or externally by some client using WriteProperty."""
+        """This function is called when the weeklySchedule, exceptionSchedule,
+        effectivePeriod or scheduleDefault property of the local schedule
+        object has changed, both internally by this interpreter, or externally
+        by some client using WriteProperty."""
         if _debug:
             LocalScheduleInterpreter._debug(
                 "schedule_changed(%s) %s %s", self.sched_obj.objectName,
